@@ -913,6 +913,11 @@ def correspond(ctx):
                 coq_jobs.append(((name, ci), defs, cases, labels))
             except E.NotExportable as e:
                 ctx.note('not exported to Coq: %s (%s)' % (name, e))
+            except Exception as e:
+                ctx.violation('correspondence:export', {'no_longer_checks': 'object graph has the attributes of the typed model',
+                                                        'grammar_name': name, 'grammar': g, 'options': {k: str(v) for k, v in opts.items()},
+                                                        'exception': traceback.format_exc()[-600:]}, False,
+                              'exporting the original / loaded object graph raised %s: %s' % (type(e).__name__, e))
         # --- stand-alone
         want_sa = len(sa_jobs) < 2 * n_sa and not opts.get('g_regex_flags') and \
             (not name.startswith('rand') or rng.random() < 0.3)
